@@ -91,8 +91,10 @@ def campaign(res, pid, prog, variants, nseeds, drivers, workers_note="", extra_f
             dd = os.path.join(cdir, d)
             if os.path.isdir(dd) and os.path.exists(os.path.join(dd, "args.txt")) and \
                     open(os.path.join(dd, "args.txt")).readline().split()[:1] == [prog]:
-                a = open(os.path.join(dd, "args.txt")).readline().split()[1:]
-                runs.append((a, 1, os.path.join(dd, "schedule.sched")))
+                al = open(os.path.join(dd, "args.txt")).read().splitlines()
+                a = al[0].split()[1:]
+                sd = int(al[1].split()[1]) if len(al) > 1 and al[1].startswith("seed") else 1
+                runs.append((a, sd, os.path.join(dd, "schedule.sched")))
     ncorpus = len(runs)
     for i in range(nseeds):
         v = variants[i % len(variants)]
@@ -172,13 +174,15 @@ def search_more(res, pid, prog, variants, nseeds):
 
 
 def replay(pid, path):
-    args = open(os.path.join(path, "args.txt")).readline().split()
+    al = open(os.path.join(path, "args.txt")).read().splitlines()
+    args = al[0].split()
     prog, args = args[0], args[1:]
+    seed = int(al[1].split()[1]) if len(al) > 1 and al[1].startswith("seed") else 1
     exe, err = build_prog(prog)
     if err:
         print(err)
         return 2
-    r = run_once(exe, args, 1, os.path.join(common.BUILD, "runs", pid + "-replay"), "replay",
+    r = run_once(exe, args, seed, os.path.join(common.BUILD, "runs", pid + "-replay"), "replay",
                  replay=os.path.join(path, "schedule.sched"))
     kind, text = judge(r)
     print(r["out"])
